@@ -1,8 +1,25 @@
 #!/bin/sh
-# Build the conformance harness from files on disk only (offline). Checks rebuild incrementally.
+# Build the conformance harness from files on disk only (offline): every engine crate in the release
+# profile, plus the feature/profile variants the checks use, so that the checks themselves only do
+# incremental (no-op) builds. Checks rebuild from /repo's working tree by themselves.
 set -e
 cd "$(dirname "$0")"
 mkdir -p work evidence
 export CARGO_NET_OFFLINE=true
 cd harness
 cargo build --release --offline --quiet --workspace
+for d in */; do
+  d=${d%/}
+  [ -f "$d/Cargo.toml" ] || continue
+  [ "$d" = common ] && continue
+  if grep -q '^concurrent *=' "$d/Cargo.toml"; then
+    cargo build --release --offline --quiet -p "wf-$d" --features concurrent
+  fi
+  if grep -q '^async *=' "$d/Cargo.toml"; then
+    cargo build --release --offline --quiet -p "wf-$d" --no-default-features --features async
+  fi
+done
+# dev profile (overflow checks + debug assertions on) for the panic-freedom checks
+for d in merkle wire serde; do
+  [ -f "$d/Cargo.toml" ] && cargo build --offline --quiet -p "wf-$d" || true
+done
